@@ -59,12 +59,12 @@ def install(w):
                returns="bool",
                ensures=["result == (NonNull(field.type) and field.default is None"
                         " and is_undefined(field.default_value))"],
-               props={"C20", "C15", "C13"})
+               props={"C20", "C15", "C13", "C02"})
     w.contract(f"{D}.is_required_argument", params={"arg": "ref:GraphQLArgument"},
                returns="bool",
                ensures=["result == (NonNull(arg.type) and arg.default is None"
                         " and is_undefined(arg.default_value))"],
-               props={"C20", "C15", "C13"})
+               props={"C20", "C15", "C13", "C02"})
 
     # get_named_type: strips every wrapper; None stays None
     w.contract(f"{D}.get_named_type", params={"type_": "opt:ty"}, returns="opt:ty",
